@@ -850,9 +850,11 @@ class FMMetrics(Metrics):  # pylint: disable=too-many-instance-attributes
             raise FlamaException("Feature model is not defined.")
 
         name = "Features in constraints"
-        _features_in_constraints = list(
-            {f for ctc in self.model.get_constraints() for f in ctc.get_features()}
-        )
+        # dict.fromkeys: each name once, in order of appearance (a set would make the order of
+        # the listing change from one interpreter process to the next)
+        _features_in_constraints = list(dict.fromkeys(
+            sorted(f for ctc in self.model.get_constraints() for f in ctc.get_features())
+        ))
         result = self.construct_result(
             name=name,
             doc=self.extra_constraint_representativeness.__doc__,
